@@ -6,7 +6,8 @@ CHECK = {
          'extend with other validators\' blocks / restart the generator on the same generator database; each forge draws pool contents (0-4 senders, '
          'consecutive nonces, fees with ties and from the top of the uint64 range, sizes, a transaction failing verification or execution at generation time), the size limit (120 B ... 15 KiB), '
          'block assets, and optionally certificates (last precommitted height or the whole uncertified range) so that a non-empty aggregate commit is available; a quarter of the cases are the certificate scenario: 1-2 harness blocks change the certificate threshold, the chain grows until the change is final but not certified, all validators certify the whole range, then the generator forges. Non-trivial = history with >=3 forges, a restart and a '
-         'forge at a lower height than an earlier one; selection label when >=2 senders, a failure and a size cut occur. Distinct by digest of the action log',
+         'forge at a lower height than an earlier one; selection label when >=2 senders, a failure and a size cut occur. Distinct by digest of the action log'
+         ' Action failedAttempt: a forging attempt the application aborts in a block hook (before/after-transactions); no block may come out, and the next header of the generator must still report the largest height it really signed (label with-aborted-forging-attempt).',
  'level_text': 'For every forged block: persisted generator info already covers it when it is handed to consensus; the same node accepts it at that '
                'moment; payload obeys per-sender nonce order, stops at a sender\'s failing transaction, respects the size limit and takes maximal fee '
                'priority among senders\' heads; all headers a generator ever signed in the history are pairwise non-contradicting (LIP-0014 reference) and '
